@@ -739,6 +739,12 @@ def _reported(ctx):
     SM.snapshot_brackets(ctx, 'C01.9')
     master = ctx.index.get_class(K.MASTER, 'Master')
     c09.writer_callers(ctx, master, rule='C01.9')
+    # shared with C10: publication removes before it creates, and a restart
+    # drops an instance recorded under several servers from all of them
+    # (the model then holds it on none, both views agree)
+    from . import c10
+    with ctx.shared({'C10': 'C01.9', 'C09': 'C01.9'}):
+        c10.run(ctx)
 
 
 def check(ctx):
